@@ -484,4 +484,32 @@ def jacobian_residuals(unit, commons_unit, kin):
                 if (A, Bk) in m:
                     line = line or m[(A, Bk)][1]
             results.append({'row': A, 'col': Bk, 'ok': ok, 'detail': detail, 'line': line, 'zero': not lhs.t if ok is not None else None})
-    return results, cross, problems, structure
+    # R17.6 order of the internal-force integrand in the amplitudes (perfect shell: w0 = 0)
+    perfect = {'w0x': P(), 'w0t': P(), 'w0': P()}
+    order_memo = {}
+
+    def order(name, stack=()):
+        if name in order_memo:
+            return order_memo[name]
+        if name in stack:
+            return 1
+        best = None
+        for v in sc.lf[name].values():
+            v = v.subs(perfect)
+            for m in v.t:
+                o = 1 + sum(e * order(a, stack + (name,)) for a, e in m if a in sc.names)
+                best = o if best is None else min(best, o)
+        cst = sc.const[name].subs(perfect)
+        for m in cst.t:
+            o = sum(e * order(a, stack + (name,)) for a, e in m if a in sc.names)
+            best = o if best is None else min(best, o)
+        order_memo[name] = best if best is not None else 99
+        return order_memo[name]
+    orders = []
+    for A in dofs:
+        fA = fint.get(A, P())
+        o_gen = min([sum(e for a, e in m if a in sc.names) for m in fA.t] or [99])
+        fp = fA.subs(perfect)
+        o_perf = min([sum(e * order(a) for a, e in m if a in sc.names) for m in fp.t] or [99])
+        orders.append((A, o_gen, o_perf))
+    return results, cross, problems, structure, orders
